@@ -124,6 +124,27 @@ def is_current_time(expr, fn: FunctionInfo) -> bool:
     return found[0]
 
 
+def bool_indexed(expr):
+    """(index text, text when false, text when true) for ``(f, t)[bool(x)]`` / ``(f, t)[x]``
+    -- a two-way choice written as a table lookup -- else None"""
+    if isinstance(expr, str):
+        try:
+            expr = ast.parse(expr, mode='eval').body
+        except SyntaxError:
+            return None
+    if not (isinstance(expr, ast.Subscript) and isinstance(expr.value, ast.Tuple)
+            and len(expr.value.elts) == 2):
+        return None
+    index = expr.slice
+    if isinstance(index, ast.Call) and isinstance(index.func, ast.Name) and \
+            index.func.id == 'bool' and len(index.args) == 1 and not index.keywords:
+        index = index.args[0]
+    elif not isinstance(index, (ast.Name, ast.Attribute)):
+        return None
+    return ast.unparse(index), ast.unparse(expr.value.elts[0]), \
+        ast.unparse(expr.value.elts[1])
+
+
 def is_site(node, call) -> bool:
     """an event's node stands for the call site ``call``: the node itself, or the call a
     ``functools.partial`` local stands for at that site"""
